@@ -175,19 +175,18 @@ def r14_4(ck: Check) -> None:
     vmsg = spv.term("tx.signable_equivalent().serialize()")
     vcalls = [e for e in v.events if e.kind == "call" and e.parts[0][0] == "a" and e.parts[0][2] == "validate"]
     same_shape = bool(vcalls) and vcalls[0].term[2][1:] == (vmsg,)
-    want = sp.term("Input(output_reference=i.output_reference, signature=SECP256k1Signature("
-                   "ecdsa.SigningKey.from_string(wallet[U[i.output_reference].public_key.public_key], curve=ecdsa.SECP256k1).sign(%s)))"
-                   % "tx.signable_equivalent().serialize()")
-    apps = [e for e in s.events if e.kind == "call" and e.parts and e.parts[0][0] == "a" and e.parts[0][2] == "append" and e.parts[0][1][0] == "new"]
-    construct = "sign_transaction: one Input(same reference, SECP256k1Signature(owner_key.sign(blanked transaction))) per input of the whole input list"
-    if len(apps) == 1 and apps[0].term[2] == (want,) and list(loop_doms(apps[0])) == sp.loops and not residual(apps[0], ()) \
-            and not any(l[2] for l in apps[0].loops) and same_shape:
-        ck.ok("R14.4", construct, "the message is the same normal form the validator verifies (tx.signable_equivalent().serialize())", apps[0].loc)
+    elt = ("Input(output_reference=i.output_reference, signature=SECP256k1Signature("
+           "ecdsa.SigningKey.from_string(wallet[U[i.output_reference].public_key.public_key], curve=ecdsa.SECP256k1).sign("
+           "tx.signable_equivalent().serialize())))")
+    from ..engine.match import same_function
+    sp0 = Spec(s, ("wallet", "U", "tx"))
+    want = sp0.term("Transaction(inputs=[%s for i in tx.signable_equivalent().inputs], outputs=tx.outputs)" % elt)
+    construct = ("sign_transaction: one Input(same reference, SECP256k1Signature(owner_key.sign(blanked transaction))) per input of the whole "
+                 "input list, in order; outputs passed through unchanged")
+    if same_function(s, want) and same_shape:
+        ck.ok("R14.4", construct, "the message is the same normal form the validator verifies (tx.signable_equivalent().serialize())", s.fi.loc)
     else:
-        ck.violated("R14.4", construct, "signing loop: %s" % [e.describe()[:260] for e in apps], s.fi.loc)
-        return
-    require_return(ck, "R14.4", s, Spec(s, ("wallet", "U", "tx"), extra={"signed": apps[0].parts[0][1]}),
-                   "Transaction(inputs=signed, outputs=tx.outputs)", "signed inputs in order, outputs passed through unchanged")
+        ck.violated("R14.4", construct, "returns %s" % "; ".join(show(r.term)[:400] for r in s.returns()), s.fi.loc)
     wg = ck.summ(W + "Wallet.__getitem__", 0)
     require_return(ck, "R14.4", wg, Spec(wg, ("self", "pk")), "self.keypairs[pk]", "wallet[pk] is the private key stored for that public key")
 
